@@ -19,7 +19,7 @@ func runC08(r *vf.Run) {
 		"after every execution the exported fields (expression tree, group-by list) are compared with a deep copy taken before the first execution; " +
 		"distinct_nontrivial = distinct (dataset pair, query, history) triples with >= 2 executions")
 	r.Assume("a Query value is not shared between goroutines (C04 covers concurrency)")
-	n := r.Pick(16, 100)
+	n := r.Pick(60, 400)
 	var ids []string
 	for i := 0; i < n; i++ {
 		ids = append(ids, fmt.Sprintf("pair%03d", i))
@@ -92,7 +92,7 @@ func runC08(r *vf.Run) {
 		if !ok {
 			return
 		}
-		nq := r.Pick(25, 60)
+		nq := r.Pick(40, 80)
 		for qi := 0; qi < nq; qi++ {
 			qid := fmt.Sprintf("%s/q%d", id, qi)
 			if !r.Want(qid) {
